@@ -639,6 +639,7 @@ func checkUnmarshalers(c *Ctx, r *Run) {
 					return
 				}
 				bounded := false
+				wraps := ""
 				for _, g := range rejectGuards(fn) {
 					if g.iff == nil || g.passBlk == nil || !(g.passBlk == in.Block() || g.passBlk.Dominates(in.Block())) {
 						continue
@@ -654,7 +655,16 @@ func checkUnmarshalers(c *Ctx, r *Run) {
 					usesSize := dependsOn(g.cond, func(x ssa.Value) bool { return x == stripConv(size) || x == size })
 					if usesLen && usesSize {
 						bounded = true
+						// the comparison must not compute with the untrusted number in a type it can wrap around in
+						if w := wrappingArithmetic(g.cond, size); w != "" {
+							wraps = w
+						}
 					}
+				}
+				if bounded && wraps != "" {
+					r.Check("PANIC-4", key+"|allocation-bound-cannot-wrap", c.Pos(in.Pos()), false, "", "the bound on the allocation size computes "+wraps+" with the number read from the input in a type narrower than 64 bits: a crafted header makes the product wrap, the guard passes and a few bytes request gigabytes")
+				} else if bounded {
+					r.Hold("PANIC-4", key+"|allocation-bound-cannot-wrap", c.Pos(in.Pos()), "the bounding comparison does no narrow arithmetic on the untrusted size")
 				}
 				r.Check("PANIC-4", key+"|allocation-bounded", c.Pos(in.Pos()), bounded, "an allocation sized by a number read from the input is bounded by the input length", "allocation at "+c.Pos(in.Pos())+" is sized by a value read from the input with no bound tied to len(input): a few bytes request gigabytes")
 			})
@@ -733,4 +743,45 @@ func labelType(C *ssa.Function, label string) types.Type {
 		t = next
 	}
 	return t
+}
+
+// wrappingArithmetic: on the way from cond down to the untrusted value there is a multiplication, addition or left
+// shift whose result type is narrower than 64 bits (int/uint are taken as 64 bits: the supported targets).
+func wrappingArithmetic(cond, untrusted ssa.Value) string {
+	target := stripConv(untrusted)
+	reaches := func(v ssa.Value) bool {
+		return dependsOn(v, func(x ssa.Value) bool { return x == target || x == untrusted })
+	}
+	found := ""
+	seen := map[ssa.Value]bool{}
+	var walk func(v ssa.Value, d int)
+	walk = func(v ssa.Value, d int) {
+		if v == nil || seen[v] || d > 12 || found != "" {
+			return
+		}
+		seen[v] = true
+		if bo, ok := v.(*ssa.BinOp); ok {
+			switch bo.Op {
+			case token.MUL, token.ADD, token.SHL:
+				if reaches(bo.X) || reaches(bo.Y) {
+					if b, ok := bo.Type().Underlying().(*types.Basic); ok {
+						switch b.Kind() {
+						case types.Int8, types.Int16, types.Int32, types.Uint8, types.Uint16, types.Uint32:
+							found = bo.Op.String() + " in " + b.Name()
+							return
+						}
+					}
+				}
+			}
+		}
+		if in, ok := v.(ssa.Instruction); ok {
+			for _, op := range in.Operands(nil) {
+				if *op != nil {
+					walk(*op, d+1)
+				}
+			}
+		}
+	}
+	walk(cond, 0)
+	return found
 }
